@@ -18,7 +18,7 @@ ASSUMPTIONS = [
 ]
 BOUNDS = {"quick": "offer x accept lattice: 2^3 x 6 offer parameters x 2 x 6 x 3 x 7 x 4 accept parameters, response x response-accept lattice likewise; end-to-end pairs: 12 negotiation settings x 3 messages per direction x {whole, fragmented, streaming, prepared, do-not-compress} with free payload octets; 14 malformed extension responses; compressed control frame / RSV1 on continuation",
           "thorough": "all window sizes 8..16, 4 messages per direction"}
-EXPECT_COVERS = ["pair:bzip2", "pair:brotli", "lattice:accept-ok", "lattice:accept-raises", "lattice:offer-raises", "pair:delivered", "pair:uncompressed", "client:refuses", "rx:rsv-violation"]
+EXPECT_COVERS = ["pair:ctl-between-fragments", "pair:bzip2", "pair:brotli", "lattice:accept-ok", "lattice:accept-raises", "lattice:offer-raises", "pair:delivered", "pair:uncompressed", "client:refuses", "rx:rsv-violation"]
 BUDGET = {"quick": dict(wall_s=300, max_paths=60000, diff_samples=3), "thorough": dict(wall_s=2400, max_paths=600000)}
 
 WB = [0, 8, 9, 12, 15, 16]
@@ -189,6 +189,16 @@ def pair(sx, setting, api, nmsg):
                 p.sendMessageFrame(pl[:1])
                 p.sendMessageFrame(pl[1:])
                 p.endMessage()
+            elif api == "streaming+ctl":
+                # control frames on the wire between the fragments of a compressed message (an automatic ping does that to any streamed message)
+                p.beginMessage(isBinary=True)
+                p.sendMessageFrame(pl[:1])
+                p.sendPing(b"k")
+                p.sendMessageFrame(pl[1:2])
+                p.sendPong(b"u")
+                p.sendMessageFrame(pl[2:])
+                p.endMessage()
+                sx.cover("pair:ctl-between-fragments")
             elif api == "prepared":
                 p.sendPreparedMessage(snd.factory.prepareMessage(pl, isBinary=True))
             sent.append((pl, dnc))
@@ -685,7 +695,7 @@ def units(tier):
                 for w in wbs:
                     U.append(("lattice/%d%d%d/%d" % (a, b, c, w), "lattice", dict(o_acc_nct=a, o_acc_mwb=b, o_req_nct=c, o_req_mwb=w), dict(weight=5)))
     for si in range(len(SETTINGS)):
-        for api in ("message", "fragmented", "streaming", "streaming-mixed", "prepared", "donotcompress", "mixed", "empty"):
+        for api in ("message", "fragmented", "streaming", "streaming-mixed", "streaming+ctl", "prepared", "donotcompress", "mixed", "empty"):
             U.append(("pair/%d/%s" % (si, api), "pair", dict(setting=si, api=api, nmsg=3 if q else 4), dict(weight=3)))
     for si in range(len(BZ_SETTINGS)):
         for api in ("message", "fragmented", "streaming", "empty"):
